@@ -7,6 +7,7 @@ import JubakoModel.Lemmas.Refs
 import JubakoModel.Lemmas.MultiStore
 import JubakoModel.Lemmas.FuncsStats
 import JubakoModel.Lemmas.FuncsEntry
+import JubakoModel.Lemmas.FuncsRefs
 
 namespace Jubako
 
@@ -188,5 +189,23 @@ theorem c15_words_follow_source :
 /-- and a reference written under an unsigned property of width `sz` is the little-endian image of the cell -/
 example : (Generated.entryPropertyWrites (.unsignedInt 2 none [114]) (.unsignedWord 513) none).map writesBytes = some [1, 2] := by
   decide
+
+/-- **The step sequence `c15_refs` is proved over is the source's**: the statements of `EntryStore::sort`
+    extracted from `creator/directory_pack/entry_store.rs` on every run — every `par_sort_unstable_by` and every
+    `set_entry_idx`, in textual order, nothing else permuting or numbering the entries — are a renumbering, then
+    (sort, renumbering) under the sort keys, then (sort, renumbering) in the retry loop: the kinds of
+    `finalizeSteps`, in which every sort pass is immediately followed by a renumbering. -/
+theorem c15_sort_steps_are_source_steps (p q : List Nat) :
+    (finalizeSteps [p, q]).map FinStep.kind = Generated.entryStoreSortShape ∧
+    Generated.entryStoreSortShape.head? = some .setIdx ∧
+    (∀ i, Generated.entryStoreSortShape[i]? = some SortStmt.sort → Generated.entryStoreSortShape[i + 1]? = some SortStmt.setIdx) :=
+  ⟨gen_entryStoreSortShape p q, sortShape_renumbers_after_every_sort⟩
+
+/-- **All stores are sorted before any is sized, as in the source**: the loops of
+    `DirectoryPackCreator::finalize` extracted on every run expand to the schedule `finalizeRepaired` that
+    `c15_multi_store` is stated over. -/
+theorem c15_finalize_schedule_is_source_schedule (k : Nat) :
+    (Generated.directoryFinalizePhases.map (MPhase.acts k)).flatten ++ (List.range k).map MAct.write = finalizeRepaired k :=
+  gen_directoryFinalizePhases k
 
 end Jubako
